@@ -13,7 +13,7 @@ from .. import common
 from ..translate import specs as tr_specs
 
 PROP = "C18"
-MODULES = ["XpmVerif.Properties.C18"]
+MODULES = ["XpmVerif.Properties.C18", "XpmVerif.Properties.C18Parse"]
 GB = 10**9
 
 
@@ -95,6 +95,66 @@ def render(alts, rng):
         return s
 
     return ws() + f"{ws()}|{ws()}".join(f"{ws()}&{ws()}".join(term(t) for t in conj) for conj in alts) + ws()
+
+
+def tokens_of(alts):
+    toks = []
+    for ai, conj in enumerate(alts):
+        if ai:
+            toks.append({"k": "|"})
+        for ti, t in enumerate(conj):
+            if ti:
+                toks.append({"k": "&"})
+            if t["t"] == "duration":
+                toks += [{"k": "duration"}, {"k": "="}, {"k": "num", "n": t["n"]}, {"k": "unit", "u": t["u"]}]
+                continue
+            toks += [{"k": t["t"]}, {"k": "("}]
+            for ii, i in enumerate(t["items"]):
+                if ii:
+                    toks.append({"k": ","})
+                if i["k"] == "mem":
+                    toks += [{"k": "mem"}, {"k": "="}, {"k": "memlit", "n": i["n"], "sfx": i["sfx"]}]
+                else:
+                    toks += [{"k": "cores"}, {"k": "="}, {"k": "num", "n": i["n"]}]
+            toks.append({"k": ")"})
+            if t["t"] == "cuda" and t.get("mult") is not None:
+                toks += [{"k": "*"}, {"k": "num", "n": t["mult"]}]
+    return toks
+
+
+def mutate_tokens(toks, rng):
+    """one random token-level edit (mostly producing malformed text)"""
+    toks = [dict(t) for t in toks]
+    r = rng.random()
+    i = rng.randrange(len(toks))
+    if r < 0.35:
+        del toks[i]
+    elif r < 0.6:
+        toks.insert(i, rng.choice([{"k": ","}, {"k": ")"}, {"k": "("}, {"k": "*"}, {"k": "&"}, {"k": "|"}, {"k": "="}, {"k": "cores"}, {"k": "mem"},
+                                   {"k": "num", "n": 3}, {"k": "memlit", "n": 2, "sfx": "G"}, {"k": "unit", "u": "h"}]))
+    elif r < 0.85:
+        j = rng.randrange(len(toks))
+        toks[i], toks[j] = toks[j], toks[i]
+    else:
+        toks[i] = rng.choice([{"k": "cuda"}, {"k": "cpu"}, {"k": "duration"}])
+    return toks
+
+
+def text_of_tokens(toks, rng):
+    def ws():
+        return rng.choice(["", "", " ", " ", "  ", "\t", " \n "])
+    out = ws()
+    prev = None
+    for t in toks:
+        k = t["k"]
+        w = {"num": str(t.get("n")), "memlit": f"{t.get('n')}{t.get('sfx', '')}", "unit": t.get("u")}.get(k, k)
+        # two adjacent word-like tokens need a separator to stay two tokens
+        sep = ws()
+        if prev is not None and (prev[-1].isalnum() and w[0].isalnum()) and sep == "":
+            sep = " "
+        out += sep + w
+        prev = w
+    return out + ws()
 
 
 # ---------------------------------------------------------------- real code adapters
@@ -281,9 +341,16 @@ def gen_cases(ctx, n, rng):
             cases.append({"kind": "and", "a": gen_alts(rng)[0], "b": gen_alts(rng)[0], "same": rng.random() < 0.15})
         elif r < 0.75:
             cases.append({"kind": "mul", "a": gen_alts(rng)[0], "c": rng.choice([0, 1, 1, 2, 3, 5])})
-        else:
+        elif r < 0.88:
             alts = gen_alts(rng, malformed=rng.random() < 0.15)
             cases.append({"kind": "text", "alts": alts, "text": render(alts, rng)})
+        else:
+            toks = tokens_of(gen_alts(rng, malformed=rng.random() < 0.1))
+            for _ in range(rng.choice([0, 1, 1, 2])):
+                if toks:
+                    toks = mutate_tokens(toks, rng)
+            if toks:
+                cases.append({"kind": "tokens", "toks": toks, "text": text_of_tokens(toks, rng)})
     return cases
 
 
@@ -300,6 +367,8 @@ def run_cases(ctx, cases, with_model=True):
                 line = {"op": "and", "a": val(real_conj(c["a"])), "b": val(real_conj(c["b"])), "same": c["same"]}
             elif k == "mul":
                 line = {"op": "mul", "a": val(real_conj(c["a"])), "c": c["c"]}
+            elif k == "tokens":
+                line = {"op": "parse", "toks": c["toks"]}
             else:
                 line = {"op": "text", "alts": c["alts"]}
         except (ValueError, IndexError) as e:  # a generated request with no programmatic form (empty cuda()/cpu())
@@ -318,6 +387,14 @@ def run_cases(ctx, cases, with_model=True):
             elif k == "mul":
                 out, va = impl_mul_case(ctx, c["a"], c["c"])
                 nt = bool(va["gpus"]) and c["c"] != 1
+            elif k == "tokens":
+                from experimaestro.launcherfinder.parser import parse
+                try:
+                    out = {"reqs": [val(r) for r in parse(c["text"])]}
+                except Exception:
+                    out = {"reqs": "error"}
+                nt = len(c["toks"]) > 6
+                ctx.count("token_stream_outcome", "error" if out["reqs"] == "error" else "ok")
             else:
                 out, prog = impl_text_case(ctx, c["alts"], c["text"])
                 nt = len(c["text"]) > 20
